@@ -309,6 +309,11 @@ def run_auth(cell):
     if beh == 'code':
         fcode = ['4', '5'][api.choice('code_class', 2)] + \
             api.sstr('code12', 2, 0x30, 0x39)
+    # short credentials, or a pass phrase long enough that its base64 does
+    # not fit a 76-column line
+    creds = [('user', 'secret'),
+             ('user@example.com', 'correct horse battery staple ' * 3)][
+        api.choice('creds', 2)]
     ext = ((ext_auth, 'PIPELINING', '8BITMIME') if pipe
            else (ext_auth, '8BITMIME'))
     base = nc.ok_script(ext)
@@ -327,7 +332,7 @@ def run_auth(cell):
                             ehlo_as='me', connect_timeout=10,
                             command_timeout=10, data_timeout=20,
                             context=object(),
-                            credentials=('user', 'secret'))
+                            credentials=creds)
     env = qc.make_envelope('m1', 's@z', RC[:1])
     out = []
     gevent.spawn(attempt, relay, env, out)
@@ -346,6 +351,12 @@ def run_auth(cell):
         for st, a, arg in peer.log)
     auth_tried = peer is not None and any(st == 'AUTH'
                                           for st, a, arg in peer.log)
+    # whatever the credentials, every line the client sent is a command or
+    # a response the exchange asked for
+    stray = [arg for st, a, arg in (peer.log if peer else [])
+             if st == 'other']
+    api.prove(not stray, 'client-sent-a-line-that-is-no-command',
+              line=repr(stray[:1]), **info)
     if kind == 'value':
         acc = accepted_by_peer(peer, RC[:1], 0)
         api.prove(acc.get(RC[0], False),
